@@ -4,6 +4,7 @@ order-stream snapshots into an un-run `Flumine` instance.
 
 Fidelity is limited to what flumine's own handlers consume (see DESIGN.md Appendix B').
 """
+import time as _time
 import copy
 import collections
 import datetime as _dt
@@ -381,14 +382,17 @@ class ControlledExecutor:
 
 
 class LiveWorld:
-    def __init__(self, strategies, exchange=None, n_clients=1, async_place=False, transaction_limit=None, market_files=(), usernames=None):
+    def __init__(self, strategies, exchange=None, n_clients=1, async_place=False, transaction_limit=None, market_files=(), usernames=None, paper=False, commissions=None):
         fconfig.simulated = False
         fconfig.async_place_orders = async_place
         self.exchange = exchange or Exchange()
         self.clients = []
         for i in range(n_clients):
             tl = transaction_limit[i] if isinstance(transaction_limit, (list, tuple)) else transaction_limit
-            self.clients.append(clients.BetfairClient(FakeAPI(self.exchange, (usernames or ["live%d" % j for j in range(n_clients)])[i]), order_stream=False, transaction_limit=tl))
+            kw = {"paper_trade": True} if paper else {}
+            self.clients.append(clients.BetfairClient(FakeAPI(self.exchange, (usernames or ["live%d" % j for j in range(n_clients)])[i]), order_stream=False, transaction_limit=tl, **kw))
+            if commissions:
+                self.clients[-1].commission_base = commissions[i]
         self.fw = Flumine(client=self.clients[0])
         for c in self.clients[1:]:
             self.fw.add_client(c)
@@ -396,6 +400,21 @@ class LiveWorld:
             c.account_details = None
         self.executor = ControlledExecutor()
         self.fw.betfair_execution._thread_pool = self.executor
+        if paper:
+            # paper trading: the simulated execution runs its calls on its pool after sleeping the latency
+            import flumine.execution.simulatedexecution as _se
+
+            class _NoSleep:
+                def __getattr__(s, k):
+                    return getattr(_time, k)
+
+                @staticmethod
+                def sleep(x):
+                    return None
+
+            _se.time = _NoSleep()
+            self.fw.simulated_execution._thread_pool.shutdown(wait=False)
+            self.fw.simulated_execution._thread_pool = self.executor
         self.strategies = []
 
         class _S:
